@@ -1,17 +1,26 @@
-import Litep2pVerif.Proofs.Notif.Inv
+import Litep2pVerif.Proofs.Notif.Inv2
 /-!
 C11 — notification streams follow a strict open/close protocol towards the user.
 
 Model: `Model/Notif/Peer.lean` (per-peer machine, all handlers), `Model/Notif/Sys.lean` (composition with
 the connection tasks, the handshake service, the validation answers and the transport as a labelled
 transition system, per peer). `Reach` = every schedule and every environment behaviour allowed by the
-guards; `ReachP` = additionally (a) a connection task that started to close finishes before the protocol
-handles anything else for that peer and (b) a validation answer reaches the protocol only while the
-inbound substream it was given for is the one being validated.
+guards. `ReachP` = `Reach` minus the two known findings, i.e. every step additionally satisfies
 
-The full statements (over `Reach`) of `grammar_alternation`, `no_failure_while_open` and `no_bug_reachable`
-are FALSE of the code: see the `_witness` theorems (replayed on the real component by checks/c11.py,
-known findings `stale-connection-task`, `dangling-pending-open`, `stale-validation-answer`).
+* `prompt` (scheduling; finding `stale-connection-task`): a connection task that started to close finishes
+  (notice delivered, `NotificationStreamClosed` reported) before the protocol handles anything else for that
+  peer — false only if `Substream::close()` stays pending inside the task;
+* `freshAnswer` (usage; finding `stale-validation-answer`): a validation answer reaches the protocol only
+  while the inbound substream it was given for is the one being validated (or none is).
+
+Which of them a theorem really uses is said at the theorem. The full statements (over `Reach`) are FALSE of
+the code: see the `_witness` theorems (replayed on the real component by checks/c11.py).
+
+A third finding, `dangling-pending-open` (`SubstreamOpenFailure` for the outbound substream of an accepted or
+simultaneously opened stream left `Closed{pending_open: Some(dead id)}`, and the next open request reused the
+dead id and was never answered), is repaired in the code (`fix: notification: do not reuse a pending outbound
+substream that already failed to open`); the model mirrors the repaired `on_open_substream`, and
+`open_answered_once_partial` needs no hypothesis about it (see `open_after_late_failure`).
 -/
 namespace Litep2pVerif.Notif
 
@@ -68,6 +77,9 @@ theorem bug_table (slot : Slot) (ev : Ev) : Out.bug ∈ (handle slot ev).2 ↔ b
   all_goals (try simp_all [bugSpec])
   all_goals (try grind)
 
+example : Out.bug ∈ (handle (some (.closed none)) (.connEst none)).2 ∧ bugSpec (some (.closed none)) (.connEst none) = true ∧
+    Out.bug ∉ (handle (some .dialing) (.connEst none)).2 ∧ bugSpec (some .dialing) (.connEst none) = false := by decide
+
 set_option maxHeartbeats 4000000 in
 /-- No handler gets stuck: the only dead state, `Poisoned`, is entered only together with a `bug` effect
 (i.e. on a pair of the table). -/
@@ -87,8 +99,14 @@ theorem handler_total (slot : Slot) (ev : Ev) (h : (handle slot ev).1 = some .po
   all_goals (repeat' split)
   all_goals simp_all
 
-example : bugSpec (some (.closed none)) (.connEst none) = true ∧ bugSpec (some .dialing) (.connEst none) = false ∧
-    (handle (some (.closed none)) (.connEst none)).1 = some .poisoned := by decide
+-- the hypothesis of `handler_total` is satisfiable in both ways: a pair of the table that poisons the state, and
+-- the poisoned state staying poisoned without a new `bug`; a pair outside the table does not poison
+example : (handle (some (.closed none)) (.connEst none)).1 = some .poisoned ∧
+    bugSpec (some (.closed none)) (.connEst none) = true ∧
+    (handle (some (.opn 3)) .hsError).1 = some .poisoned ∧ bugSpec (some (.opn 3)) .hsError = true ∧
+    (handle (some .poisoned) .cmdClose).1 = some .poisoned ∧ bugSpec (some .poisoned) .cmdClose = false ∧
+    (handle (some .dialing) (.connEst none)).1 ≠ some .poisoned ∧ bugSpec (some .dialing) (.connEst none) = false := by
+  decide
 
 /-- Opened and closed strictly alternate on the user channel, starting with opened, and no open failure is
 reported while a stream is open — `grammar` folds exactly these three rules over the channel.
@@ -172,7 +190,7 @@ theorem view_of_grammar (l : List UEv) : ∀ (v b : Bool), l.foldl gstep (some v
 theorem notif_only_while_open (polled : List UEv) (b : Bool) (h : grammar polled = some b) :
     handleView polled = b := view_of_grammar polled false b h
 
--- ---------------------------------------------------------------- witnesses of the full statements' failure
+-- ---------------------------------------------------------------- concrete runs (for the examples and witnesses)
 
 /-- Run a list of labels; `okActs` checks the guards along the way. -/
 def finalActs (l : List Act) (s : PeerSys) : PeerSys := l.foldl step s
@@ -194,6 +212,228 @@ def openOnce (sid pin pout t : Nat) : List Act :=
   [.subInbound pin, .hsNegotiated .inbound 5 false 9, .validation pin true true sid, .hsNegotiated .inbound 1 false 9,
    .subOpened sid pout, .hsNegotiated .outbound 7 false t]
 
+def happy : List Act := [.connEst true 0] ++ openOnce 0 0 1 0 ++ [.cmdClose, .taskSeesSignal 0, .taskNotice 0, .taskReport 0]
+
+def happyOpen : List Act := [.connEst true 0] ++ openOnce 0 0 1 0
+
+def okActsP : List Act → PeerSys → Bool
+  | [], _ => true
+  | a :: rest, s => enabled s a && prompt s a && freshAnswer s a && okActsP rest (step s a)
+
+theorem okActsP_reach (l : List Act) : ∀ s, ReachP s → okActsP l s = true → ReachP (finalActs l s) := by
+  induction l with
+  | nil => intro s hr _; exact hr
+  | cons a rest ih =>
+    intro s hr h
+    simp only [okActsP, Bool.and_eq_true] at h
+    exact ih _ (.step a hr h.1.1.1 h.1.1.2 h.1.2) h.2
+
+/-- A reachable state of the restricted system, given by the labels leading to it. -/
+theorem reachP_of (l : List Act) (h : okActsP l {} = true) : ReachP (finalActs l {}) := okActsP_reach l {} .init h
+
+-- ---------------------------------------------------------------- the three theorems resting on `Inv2`
+
+/-- No reachable state of the restricted system has fired a `debug_assert!(false)`: the ghost log records every
+`bug` output of every handler run so far, and it contains none.
+Uses `prompt` only (a stale shutdown notice is the way to a `bug`); `freshAnswer` is not needed for it. FULL statement (`∀ s, Reach s → …`) is false: `no_bug_reachable_witness`. -/
+theorem no_bug_reachable_partial {s : PeerSys} (h : ReachP s) : UEv.bug ∉ s.log := (inv2_reach h).nb
+
+example : ∃ s, ReachP s ∧ UEv.opened .inbound 7 0 0 ∈ s.log ∧ UEv.closed ∈ s.log ∧ s.log.length = 5 :=
+  ⟨_, reachP_of happy (by decide), by decide, by decide, by decide⟩
+
+/-- … and the next step does not fire one either (the same fact, said about handler outputs). -/
+theorem no_bug_next_partial {s : PeerSys} (h : ReachP s) (a : Act) (he : enabled s a = true) :
+    Out.bug ∉ outsOf s a := by
+  rcases hev : evOf s a with _ | ⟨s1, ev⟩
+  · simp [outsOf, hev]
+  · have hslot : s1.slot = s.slot := (before_of (inv2_reach h) he hev).slot
+    simp only [outsOf, hev, hslot]
+    exact bug_pure _ _ _ (pre_of (inv2_reach h) he hev)
+
+example : ∃ s a, ReachP s ∧ enabled s a = true ∧ outsOf s a = [.shutdown 0] :=
+  ⟨_, .cmdClose, reachP_of happyOpen (by decide), by decide, by decide⟩
+
+/-- A request to open a stream to a connected peer with no negotiation in progress is answered by exactly one
+of opened / open failure.
+
+1. Taken up: in state `Closed` with no live pending substream (`pending_open` is `None`, or names a substream
+   that has already failed to open and is no longer in `pending_outbound`) — connected, nothing in progress —
+   an open command appends the ghost marker `request` to the user channel (followed at once by `NoConnection` if
+   the transport refuses the substream).
+2. Safety: on the user channel `request` markers and answers (`opened`, open failure) alternate strictly — no
+   answer without a request, no second request before the answer, no second answer (`lfold`, see
+   `Proofs/Notif/Env.lean`); an answer is outstanding exactly when the slot says so (`owed`). The ledger counts
+   the user's own Reject of the peer's inbound substream as the answer: the code then reports nothing
+   (`ValidationResult::Reject` in `on_validation_result`), also when the user's own open request dies with it.
+3. Quiescence: once the environment has discharged its obligations — peer connected, no substream request
+   unanswered by the transport, no handshake in progress, no validation unanswered, no negotiation timer that
+   would change the state — nothing is owed: every request has been answered.
+
+Uses `prompt` only (`freshAnswer` is not needed). FULL statement (over `Reach`) is false:
+`open_answered_once_witness`. -/
+theorem open_answered_once_partial {s : PeerSys} (h : ReachP s) :
+    (∀ pend, s.slot = some (.closed pend) → (∀ x, pend = some x → x ∉ s.pending) → ∀ sd dk ok sid,
+      (step s (.cmdOpen sd dk ok sid)).log = s.log ++ [.request] ∨
+      (step s (.cmdOpen sd dk ok sid)).log = s.log ++ [.request, .fail .noconn]) ∧
+    lfold s.log = some (decide (owed s.slot = 1)) ∧
+    (s.connected = true → s.requested = [] → s.hsIn = none → s.hsOut = none → s.validations = [] →
+      (handle s.slot .timer).1 = s.slot → owed s.slot = 0) := by
+  have hi := inv2_reach h
+  refine ⟨?_, ?_, ?_⟩
+  · intro pend hs hdead sd dk ok sid
+    simp only [step, evOf, post]
+    rw [rh_log, hs]
+    rcases pend with _ | x
+    · cases (ok && s.connected) <;> simp [handle, onOpenSubstream, takesUp, owes, owed, newEvs, tlF]
+    · have hx : x ∉ s.pending := hdead x rfl
+      cases (ok && s.connected) <;> simp [handle, onOpenSubstream, takesUp, owes, owed, newEvs, tlF, hx]
+  · rw [hi.lg]; rcases owed_cases s.slot with h0 | h0 <;> simp [owes, h0]
+  · intro hc hrq hin hout hval htimer
+    have h1 := hi.c; have h2 := hi.rq; have h3 := hi.ho; have h4 := hi.hi; have h5 := hi.vl; have h6 := hi.wf
+    rw [hc] at h1; rw [hrq] at h2; rw [hout] at h3; rw [hin] at h4; rw [hval] at h5
+    rcases hsl : s.slot with _ | st
+    · rfl
+    · rw [hsl] at h1 h2 h3 h4 h5 h6 htimer
+      cases st
+      case validating out inb dir =>
+        cases out
+        case closed => simp [owed]
+        case init x => simp [pendOf, isClosedSome, slotSid] at h2
+        case neg => simp [outNeg] at h3
+        case opn hs po =>
+          cases inb
+          case closed => simp [handle, onTimer] at htimer
+          case reading => simp [inbEntry] at h4
+          case validating p => have := h5 p (by simp [slotVal]); simp at this
+          case sending => simp [inbEntry] at h4
+          case opn pi => simp [slotWf] at h6
+      case dialing => simp [slotConn] at h1
+      case outInit x => simp [pendOf, isClosedSome, slotSid] at h2
+      all_goals rfl
+
+/-- The user's own request, the peer's inbound substream, then the transport opens the outbound one: answered by
+`opened`; afterwards everything is quiet and nothing is owed. -/
+def ownRequest : List Act :=
+  [.connEst true 0, .cmdOpen true true true 0, .subInbound 0, .hsNegotiated .inbound 5 false 9,
+   .validation 0 true true 1, .hsNegotiated .inbound 1 false 9, .subOpened 0 1, .hsNegotiated .outbound 7 false 0]
+
+/-- The user asks for a stream and then rejects the peer's inbound substream: nothing is reported. -/
+def ownReject : List Act :=
+  [.connEst true 0, .cmdOpen true true true 0, .subInbound 0, .hsNegotiated .inbound 5 false 9, .validation 0 false true 1]
+
+-- 1: the hypothesis holds after the connection is established; 2 and 3: a request answered by `opened`, all quiet
+-- (the hypotheses of 3 hold) and nothing owed; a request whose answer is outstanding, with the transport owing the
+-- substream; the Reject path
+example : ∃ s, ReachP s ∧ s.slot = some (.closed none) ∧
+    (step s (.cmdOpen true true true 0)).log = [.request] ∧ (step s (.cmdOpen true true false 0)).log = [.request, .fail .noconn] :=
+  ⟨_, reachP_of [.connEst true 0] (by decide), by decide, by decide, by decide⟩
+
+/-- The repaired path (former finding `dangling-pending-open`): `SubstreamOpenFailure` for the outbound substream
+of an accepted stream leaves `Closed{pending_open: Some(0)}` with id 0 dead; the next open request is taken up, a
+new substream is requested from the transport, and the transport owes the answer. -/
+def lateFailure : List Act :=
+  [.connEst true 0, .subInbound 0, .hsNegotiated .inbound 5 false 9, .validation 0 true true 0,
+   .hsNegotiated .inbound 1 false 9, .subFailed 0]
+
+theorem open_after_late_failure : ∃ s, ReachP s ∧ s.slot = some (.closed (some 0)) ∧ 0 ∉ s.pending ∧
+    (step s (.cmdOpen true true true 1)).log = s.log ++ [.request] ∧
+    (step s (.cmdOpen true true true 1)).slot = some (.outInit 1) ∧
+    (step s (.cmdOpen true true true 1)).requested = [1] :=
+  ⟨_, reachP_of lateFailure (by decide), by decide, by decide, by decide, by decide, by decide⟩
+
+example : ∃ s, ReachP s ∧ s.log = [.request, .validate 5 0, .accepted 0, .opened .outbound 7 0 0] ∧
+    lfold s.log = some false ∧ s.connected = true ∧ s.requested = [] ∧ s.hsIn = none ∧ s.hsOut = none ∧
+    s.validations = [] ∧ (handle s.slot .timer).1 = s.slot ∧ owed s.slot = 0 :=
+  ⟨_, reachP_of ownRequest (by decide), by decide, by decide, by decide, by decide, by decide, by decide, by decide,
+    by decide, by decide⟩
+
+example : ∃ s, ReachP s ∧ s.log = [.request] ∧ lfold s.log = some true ∧ owed s.slot = 1 ∧ s.requested = [0] :=
+  ⟨_, reachP_of [.connEst true 0, .cmdOpen true true true 0] (by decide), by decide, by decide, by decide, by decide⟩
+
+example : ∃ s, ReachP s ∧ s.log = [.request, .validate 5 0, .rejected 0] ∧ lfold s.log = some false ∧
+    s.slot = some (.closed (some 0)) :=
+  ⟨_, reachP_of ownReject (by decide), by decide, by decide, by decide⟩
+
+/-- A stream is reported opened only after the user accepted that very inbound substream, or auto-accept applied
+to it.
+
+1. On the user channel every `opened` (its last component is the inbound substream the stream runs on) is
+   preceded, within its negotiation round — no other `opened`, no open failure and no Reject in between —, by
+   the marker `accepted p` or `autoAccepted p` of exactly that substream `p` (`afold`, see
+   `Proofs/Notif/Env.lean`).
+2. The marker `accepted q` is produced only by the step that delivers the user's Accept given for substream
+   `q` (this is where `freshAnswer` is needed: the code applies an answer to whatever substream of that peer is
+   under validation).
+3. The marker `autoAccepted q` is produced only when the handshake of inbound substream `q` has been read,
+   auto-accept is configured, and the user itself has an open request for that peer outstanding.
+
+Uses `prompt` and `freshAnswer`. FULL statement is false: `inbound_after_accept_witness`. -/
+theorem inbound_after_accept_partial {s : PeerSys} (h : ReachP s) :
+    (∃ c, afold s.log = some c) ∧
+    (∀ a q, enabled s a = true → freshAnswer s a = true → Out.accepted q ∈ outsOf s a →
+      ∃ ok sid, a = .validation q true ok sid) ∧
+    (∀ a q, Out.autoAccepted q ∈ outsOf s a →
+      owed s.slot = 1 ∧ s.hsIn = some (q, false) ∧ ∃ hs t, a = .hsNegotiated .inbound hs true t) := by
+  have hi := inv2_reach h
+  refine ⟨⟨_, hi.ac⟩, ?_, ?_⟩
+  · intro a q he hf hq
+    rcases hev : evOf s a with _ | ⟨s1, ev⟩
+    · simp [outsOf, hev] at hq
+    · have hslot : s1.slot = s.slot := (before_of hi he hev).slot
+      simp only [outsOf, hev, hslot] at hq
+      obtain ⟨hv, r, rfl⟩ := accepted_pure _ _ _ hq
+      cases a <;> simp [evOf] at hev
+      case hsNegotiated d hs auto t =>
+        cases d <;> simp [Option.map] at hev <;> split at hev <;> simp at hev
+      case validation p acc ok sid =>
+        obtain ⟨-, rfl, -⟩ := hev
+        refine ⟨ok, sid, ?_⟩
+        simp only [freshAnswer] at hf
+        rcases hsl : s.slot with _ | st
+        · rw [hsl] at hv; simp [slotVal] at hv
+        · rw [hsl] at hv hf
+          cases st <;> simp [slotVal] at hv
+          rename_i out inb dir
+          cases inb <;> simp at hv
+          subst hv
+          simp at hf
+          rw [hf]
+  · intro a q hq
+    rcases hev : evOf s a with _ | ⟨s1, ev⟩
+    · simp [outsOf, hev] at hq
+    · simp only [outsOf, hev] at hq
+      obtain ⟨hb, ho, hs, t, rfl⟩ := auto_pure _ _ _ hq
+      cases a <;> simp [evOf] at hev
+      case hsNegotiated d hs' auto t' =>
+        cases d
+        · rcases hin : s.hsIn with _ | ⟨p, b⟩
+          · rw [hin] at hev; simp at hev
+          · rw [hin] at hev; simp at hev
+            obtain ⟨rfl, rfl, rfl, rfl, rfl⟩ := hev
+            have h4 := hi.hi
+            rw [hin, hb] at h4
+            simp at h4
+            refine ⟨by simpa [owes] using ho, by rw [h4], _, _, rfl⟩
+        · rcases hout : s.hsOut with _ | p
+          · rw [hout] at hev; simp at hev
+          · rw [hout] at hev; simp at hev
+
+-- 1: an `opened` preceded by the acceptance of its inbound substream 0; 2: the step delivering the user's Accept
+-- for substream 0 produces `accepted 0`; 3: with auto-accept and an own request outstanding, the handshake of
+-- inbound substream 0 produces `autoAccepted 0`
+example : ∃ s, ReachP s ∧ s.log = [.validate 5 0, .request, .accepted 0, .opened .inbound 7 0 0] ∧ afold s.log = some none :=
+  ⟨_, reachP_of happyOpen (by decide), by decide, by decide⟩
+
+example : ∃ s a, ReachP s ∧ enabled s a = true ∧ freshAnswer s a = true ∧ Out.accepted 0 ∈ outsOf s a :=
+  ⟨_, .validation 0 true true 0, reachP_of [.connEst true 0, .subInbound 0, .hsNegotiated .inbound 5 false 9] (by decide),
+    by decide, by decide, by decide⟩
+
+example : ∃ s a, ReachP s ∧ enabled s a = true ∧ Out.autoAccepted 0 ∈ outsOf s a :=
+  ⟨_, .hsNegotiated .inbound 5 true 9, reachP_of [.connEst true 0, .cmdOpen true true true 0, .subInbound 0] (by decide),
+    by decide, by decide⟩
+
+-- ---------------------------------------------------------------- witnesses of the full statements' failure
+
 /-- The old task is signalled by the user's close but does not get to report `closed` before a second
 stream to the same peer is negotiated and reported: opened, opened. -/
 def lateClosed : List Act :=
@@ -214,18 +454,24 @@ def staleNotice : List Act :=
 theorem no_bug_reachable_witness : ∃ s, Reach s ∧ UEv.bug ∈ s.log := by
   refine ⟨finalActs staleNotice {}, okActs_reach staleNotice {} .init ?_, ?_⟩ <;> decide
 
-/-- `SubstreamOpenFailure` for the outbound substream of an accepted stream leaves
-`Closed{pending_open: Some(dead id)}`; the next open request reuses the dead id: nothing is asked of the
-transport, nothing is in flight anywhere, and the request is still unanswered. -/
-def danglingOpen : List Act :=
-  [.connEst true 0, .subInbound 0, .hsNegotiated .inbound 5 false 9, .validation 0 true true 0,
-   .hsNegotiated .inbound 1 false 9, .subFailed 0, .cmdOpen true true true 1]
+/-- An accepted stream meets a stale shutdown notice: the task of the previous stream saw the remote close, the
+user closed that stream, the peer opened a new inbound substream and the user accepted it (taken up: `request`, an
+outbound substream requested from the transport, handshake sent); then the old task's notice arrives and resets
+`Validating{OutboundInitiated, Open}` to `Closed`; the transport's answer finds nothing to answer for. (An open
+*command* cannot be hit this way on the real component: the handle refuses `open_substream` until it has yielded
+`NotificationStreamClosed`, which the task reports after its notice. The transition system does not model that
+guard of the handle.) -/
+def staleRequest : List Act :=
+  [.connEst true 0] ++ openOnce 0 0 1 0 ++
+  [.taskSeesClose 0, .cmdClose, .subInbound 2, .hsNegotiated .inbound 5 false 9, .validation 2 true true 1,
+   .hsNegotiated .inbound 1 false 9, .taskNotice 0, .notice, .taskReport 0, .subFailed 1]
 
-/-- FULL `open_answered_once` (quiescence part) fails: nobody owes anything, yet the protocol owes an answer. -/
+/-- FULL `open_answered_once` fails: everything is quiet and the slot owes nothing, yet the last request on the
+user channel has never been answered. -/
 theorem open_answered_once_witness : ∃ s, Reach s ∧ s.connected = true ∧ s.requested = [] ∧ s.hsIn = none ∧
-    s.hsOut = none ∧ s.validations = [] ∧ s.tasks = [] ∧ s.notices = 0 ∧ owed s.slot = 1 ∧
-    (handle s.slot .timer).1 = s.slot := by
-  refine ⟨finalActs danglingOpen {}, okActs_reach danglingOpen {} .init ?_, ?_⟩ <;> decide
+    s.hsOut = none ∧ s.validations = [] ∧ s.tasks = [] ∧ s.notices = 0 ∧ (handle s.slot .timer).1 = s.slot ∧
+    owed s.slot = 0 ∧ lfold s.log = some true := by
+  refine ⟨finalActs staleRequest {}, okActs_reach staleRequest {} .init ?_, ?_⟩ <;> decide
 
 /-- The user's Accept for inbound substream 0 (whose negotiation has failed meanwhile) is applied to inbound
 substream 2, which is opened without ever having been accepted. -/
@@ -241,22 +487,6 @@ theorem inbound_after_accept_witness : ∃ s, Reach s ∧
   refine ⟨finalActs staleAccept {}, okActs_reach staleAccept {} .init ?_, ?_, ?_, ?_⟩ <;> decide
 
 -- non-vacuity: the hypotheses of the partial theorems are satisfiable on a state with an open stream
-def happy : List Act := [.connEst true 0] ++ openOnce 0 0 1 0 ++ [.cmdClose, .taskSeesSignal 0, .taskNotice 0, .taskReport 0]
-
-def happyOpen : List Act := [.connEst true 0] ++ openOnce 0 0 1 0
-
-def okActsP : List Act → PeerSys → Bool
-  | [], _ => true
-  | a :: rest, s => enabled s a && prompt s a && freshAnswer s a && okActsP rest (step s a)
-
-theorem okActsP_reach (l : List Act) : ∀ s, ReachP s → okActsP l s = true → ReachP (finalActs l s) := by
-  induction l with
-  | nil => intro s hr _; exact hr
-  | cons a rest ih =>
-    intro s hr h
-    simp only [okActsP, Bool.and_eq_true] at h
-    exact ih _ (.step a hr h.1.1.1 h.1.1.2 h.1.2) h.2
-
 example : ∃ s, ReachP s ∧ grammar s.log = some false ∧ UEv.closed ∈ s.log ∧ s.tasks = [] := by
   refine ⟨finalActs happy {}, okActsP_reach happy {} .init ?_, ?_, ?_, ?_⟩ <;> decide
 
@@ -278,6 +508,11 @@ example : handleView [.opened .inbound 1 0 0] = true ∧ handleView [.opened .in
 #print axioms inbound_after_accept_witness
 #print axioms closed_on_disconnect
 #print axioms no_bug_reachable_witness
+#print axioms no_bug_reachable_partial
+#print axioms no_bug_next_partial
+#print axioms open_answered_once_partial
+#print axioms open_after_late_failure
+#print axioms inbound_after_accept_partial
 #print axioms notif_only_while_open
 
 end Litep2pVerif.Notif
